@@ -210,6 +210,81 @@ func (s *sys) checkGone(i int) error {
 
 func spec(k int) xstate.Spec { return specOn(k, "local") }
 
+// heartbeatTimings: "stops sending heartbeats" is a matter of time. On the virtual clock, every placement on a 200 ms
+// grid of: a report + acquire (with heartbeat) at 0, zero / one / two later heartbeats, and the cleanup passes at t -
+// the instance's record must survive exactly when its LAST RECEIVED heartbeat is at most the timeout (3 s) old, and be
+// gone when it is older (the exact boundary instant is not judged).
+func heartbeatTimings(c *ev.Check) {
+	const step = 200 * time.Millisecond
+	timeout := 3 * time.Second
+	run := func(hbs []time.Duration, at time.Duration) {
+		s := newSys(2)
+		t0 := vtime.Now()
+		advanceTo := func(d time.Duration) { vtime.Advance(t0.Add(d).Sub(vtime.Now())) }
+		name := s.inst[0].name
+		_ = s.rig.L.Heartbeat(name)
+		if err := s.report(0); err != nil {
+			c.EngineError("heartbeat-timings: " + err.Error())
+			return
+		}
+		_ = s.acquire(0, 2)
+		// a second, always-live instance keeps the passes honest
+		other := s.inst[1].name
+		_ = s.rig.L.Heartbeat(other)
+		last := time.Duration(0)
+		for _, h := range hbs {
+			advanceTo(h)
+			_ = s.rig.L.Heartbeat(name)
+			_ = s.rig.L.Heartbeat(other)
+			last = h
+		}
+		advanceTo(at)
+		_ = s.rig.L.Heartbeat(other)
+		condBefore, countedBefore, _ := s.view(name)
+		s.rig.H.CleanupTimeoutClient()
+		s.rig.H.CleanupUnknownCondition()
+		cond, counted, _ := s.view(name)
+		age := at - last
+		c.Add("heartbeat_timing_cases", 1)
+		label := fmt.Sprintf("heartbeats of the instance at 0%v, cleanup passes at %v (last heartbeat %v old, timeout %v)", hbs, at, age, timeout)
+		switch {
+		case age < timeout:
+			c.Outcome("heartbeat_timings", fmt.Sprintf("live/%v", cond == condBefore && counted == countedBefore))
+			if cond != condBefore || counted != countedBefore {
+				c.Violation("heartbeat-timings/live-instance-touched", label+fmt.Sprintf(": the instance is alive, yet its record changed: %s/%d -> %s/%d", condBefore, countedBefore, cond, counted), map[string]interface{}{"heartbeats": fmt.Sprint(hbs), "cleanup_at": at.String()})
+			}
+		case age > timeout:
+			c.Outcome("heartbeat_timings", fmt.Sprintf("dead/%v", cond == "" && counted == 0))
+			if cond != "" || counted != 0 {
+				c.Violation("heartbeat-timings/dead-state-kept", label+fmt.Sprintf(": the instance is silent for longer than the timeout, yet the server still records %s / %d in-flight", cond, counted), map[string]interface{}{"heartbeats": fmt.Sprint(hbs), "cleanup_at": at.String()})
+			}
+		}
+	}
+	grid := func(from, to time.Duration) []time.Duration {
+		var out []time.Duration
+		for d := from; d <= to; d += step {
+			out = append(out, d)
+		}
+		return out
+	}
+	for _, at := range grid(step, 7*time.Second) {
+		run(nil, at)
+		for _, h1 := range grid(step, 3*time.Second) {
+			if h1 >= at {
+				continue
+			}
+			run([]time.Duration{h1}, at)
+			if c.Thorough() || h1%(3*step) == 0 {
+				for _, h2 := range grid(h1+step, h1+3*time.Second) {
+					if h2 < at {
+						run([]time.Duration{h1, h2}, at)
+					}
+				}
+			}
+		}
+	}
+}
+
 // specStray: the k=2 histories plus a stray heartbeat that carries no instance parameter (the endpoint does not refuse
 // it: the empty identity is registered) and later falls silent like any other client - which must not cost a live
 // instance anything
@@ -556,6 +631,7 @@ func main() {
 	tasks = append(tasks, xstate.Tasks(c, specIDs("url-prefix"), c.Pick(5, 6), 15)...)
 	tasks = append(tasks, xstate.Tasks(c, specIDs("long"), c.Pick(5, 6), 15)...)
 	tasks = append(tasks, xstate.Tasks(c, specStray(), c.Pick(5, 6), 17)...)
+	tasks = append(tasks, ev.Task{Name: "heartbeat-timings", Run: func() { heartbeatTimings(c) }})
 	tasks = append(tasks, xstate.Tasks(c, specStrategyEdit(), c.Pick(5, 6), 16)...)
 	bounds := []int{0, 1, 2}
 	if c.Thorough() {
